@@ -389,6 +389,11 @@ def run(ctx):
     ctx.guard("reset", "all", lambda: check_reset(ctx, P))
     ctx.guard("fin-reset", "all", lambda: check_fin_reset(ctx, P))
     ctx.guard("clone", "all", lambda: check_clone(ctx, P))
+    # finalisation must overwrite every staging-buffer byte it hands to the compression function: stale bytes from an
+    # earlier split, reset or clone would otherwise leak into the digest (shared rule instances with C01)
+    from . import C01 as _C01
+    ctx.guard("padding", "standard_padding", lambda: _C01.check_standard_padding(ctx, P))
+    ctx.guard("sponge-pad", "sha3", lambda: _C01.check_sponge_pad(ctx, P))
     if ctx.tier == "thorough":
         for cfg in ("K1", "K2", "K5"):
             Pc = ctx.prog(cfg)
